@@ -15,7 +15,7 @@ HARNESS = ["zz_verif_kv_test.go"]
 WINDOWS = ["RecoveryUnchecked", "VolatileStore", "StaleFeedback", "MultiLease", "PrematureRemoval"]
 
 C06_KINDS = {"engine", "value", "order", "regress", "diverged"}
-C13_KINDS = {"notify-raw", "notify-p", "notify-f", "txlh", "incomplete", "dup", "stale", "missed",
+C13_KINDS = {"notify-raw", "notify-p", "notify-f", "txlh", "incomplete", "dup", "stale", "unstored", "missed",
              "filter-shown", "filter-hidden"}
 DRIFT_KINDS = {"feedback", "forward", "local-result"}
 
@@ -98,7 +98,7 @@ def run_design(ctx, want):
 
 # ------------------------------------------------------------------ layer (a): ingress replay
 
-def gen_cfg(pool, npools, dup, batch, nlocal, c0s, late, keys=("k1", "k2"), vers=(1, 2, 3)):
+def gen_cfg(pool, npools, dup, batch, nlocal, c0s, late, keys=("k1", "k2"), vers=(1, 2, 3), fail=0):
     return """SPECIFICATION GSpec
 CONSTANTS
   Host = 2
@@ -112,9 +112,10 @@ CONSTANTS
   NLocal = %d
   C0s = %s
   LateSub = %s
+  MaxFail = %d
 INVARIANTS Emit GOrderIndependence
 CHECK_DEADLOCK FALSE
-""" % (tset(keys), nset(vers), pool, npools, dup, batch, nlocal, nset(c0s), "TRUE" if late else "FALSE")
+""" % (tset(keys), nset(vers), pool, npools, dup, batch, nlocal, nset(c0s), "TRUE" if late else "FALSE", fail)
 
 
 def gen_runs(tier):
@@ -133,7 +134,16 @@ def gen_runs(tier):
         ("p4", dict(pool=4, npools=20 if q else 300, dup=0, batch=4, nlocal=0, c0s=[0], late=False)),
         ("p5", dict(pool=5, npools=6 if q else 80, dup=0, batch=5, nlocal=0, c0s=[0], late=False)),
         ("p4dup", dict(pool=4, npools=2 if q else 25, dup=1, batch=5, nlocal=0, c0s=[0], late=False)),
-    ]
+        # fail=1: exactly one request per history whose ingress transaction fails to commit
+        # (storage fault injected by the harness' engine wrapper); its operations are delivered
+        # again later, interleaved with everything else
+        ("f1", dict(pool=1, npools=0, dup=1, batch=2, nlocal=0, c0s=[0], late=True, fail=1)),
+        ("f2", dict(pool=2, npools=40 if q else 0, dup=0, batch=2, nlocal=0, c0s=[0], late=False, fail=1)),
+        ("f2loc", dict(pool=2, npools=5 if q else 40, dup=0, batch=2, nlocal=1, c0s=[0, 1], late=True, fail=1)),
+    ] + ([] if q else [
+        ("f2dup", dict(pool=2, npools=60, dup=1, batch=3, nlocal=0, c0s=[0], late=False, fail=1)),
+        ("f3", dict(pool=3, npools=60, dup=0, batch=3, nlocal=0, c0s=[0], late=False, fail=1)),
+    ])
 
 
 def write_hists(res, path):
@@ -208,9 +218,12 @@ def run_ingress(ctx, want):
                 raise vlib.Inconclusive("no histories generated (%s)" % tag)
             n += k
             fams.append({"family": tag, "histories": k, "pools": "all" if kw["npools"] == 0 else kw["npools"],
-                         "tlc_wall_s": round(r.wall, 1), **{x: kw[x] for x in ("pool", "dup", "batch", "nlocal")}})
+                         "tlc_wall_s": round(r.wall, 1), "fail": kw.get("fail", 0),
+                         **{x: kw[x] for x in ("pool", "dup", "batch", "nlocal")}})
     summ, bad = replay_ingress(ctx, hp, "rp_all", kinds=kinds)
     stats = summ.get("stats") or {}
+    if any(kw.get("fail") for _, kw in runs) and not stats.get("syncfails") and not [x for x in bad if x.get("r") != "soft"]:
+        raise vlib.Inconclusive("vacuous run: no request with a failing ingress commit was replayed (syncfails=0)")
     hardbad = [b for b in bad if b.get("r") != "soft"]
     if summ["replayed"] + len(hardbad) < n and len(hardbad) < 40:
         if (stats.get("timeouts") or 0) > 8 and not hardbad:
